@@ -15,7 +15,9 @@ MANIFEST = dict(
          "conversion (numpy_array_to_live_points 2-d/1-d/empty, parameters_to_live_point, dict_to_live_points scalar and "
          "sequence branch, dataframe_to_live_points, empty_structured_array) returns the canonical array "
          "names ++ [logP, logL, it] ++ registered extras with the values in place and NaN/NaN/0/registered defaults "
-         "elsewhere; round trips array->livepoints->array, dict->livepoints->dict, livepoints->dict->livepoints, "
+         "elsewhere; round trips array->livepoints->array, dict->livepoints->dict, livepoints->dict->livepoints (selected names; and the default-argument path: all fields "
+         "back with non_sampling_parameters=False is the identity on names/order/values, back with the default True is "
+         "rejected with ValueError because logP/logL/it would occur twice), "
          "tuple->livepoint->fields, all for every n incl. 0 and 1; data frame = dict = array conversion; a dictionary of "
          "length-one sequences gives the same one-point array as the dictionary of scalars (regression guard for the defect "
          "repaired in nessai 0091c80); selection of any fields in any order; the registry "
@@ -539,6 +541,40 @@ def read_back(rec, lp, xs, case, rng, extras, fdt, c, ncl):
         elif y.dtype != xs.dtype or y.tobytes() != xs.tobytes():
             rec.fail(key, "live points -> dict -> live points changed the array")
         rec.ctx.case(("lp->dict->lp", rec.case["sel_seed"]), True, kind=f"roundtrip.lp-dict-lp.{ncl}")
+    # default-argument path: live_points_to_dict(x) returns ALL fields; back with dict_to_live_points
+    x2 = xs.copy()
+    if nsp and n:
+        x2["logL"][:] = np.array([case["wv"]], dtype="<u8").view("<f8")[0]
+        x2["logP"][:] = np.array([case["wv2"]], dtype="<u8").view("<f8")[0]
+    d, err = call(lp.live_points_to_dict, x2)
+    if d is not None:
+        regt = reg_token(case["pre_ops"] + case["ops"])
+        items = ",".join(f"{kk}:a:[{','.join(str(t) for t in tok_col(v))}]" for kk, v in d.items())
+        for back_nsp in (True, False):
+            y, err = call(lp.dict_to_live_points, d) if back_nsp else call(lp.dict_to_live_points, d, non_sampling_parameters=False)
+            rec.add(f"lp dict {c} {regt} {'1' if back_nsp else '0'} [{items}]", err or canon_lp(y, fdt),
+                    "dict_to_live_points(live_points_to_dict(x))" + ("" if back_nsp else ",nsp=False"),
+                    f"roundtrip.default-args.{'nsp' if nsp else 'plain'}.back-{'nsp' if back_nsp else 'plain'}.{ncl}")
+            if back_nsp and nsp:
+                continue      # keys contain logP/logL/it: outside the domain (names must be fresh); model = code on rejection
+            key = "dict_to_live_points:default-args-roundtrip"
+            if err:
+                rec.fail(key, f"live_points_to_dict(x) then dict_to_live_points(d, non_sampling_parameters={back_nsp}) raised {err}")
+                continue
+            want = fields + ((CORE + [e for e, _ in extras]) if back_nsp else [])
+            if list(y.dtype.names) != want or y.shape != (n,):
+                rec.fail(key, f"field names/order {list(y.dtype.names)} != {want}")
+                continue
+            for nm in fields:
+                same = (tok_col(y[nm]) == tok_col(x2[nm])) if x2.dtype[nm].kind == "f" else bool(np.all(y[nm] == x2[nm]))
+                if not same:
+                    rec.fail(key, f"value of field {nm!r} changed on the way back")
+        if nsp and n:                 # integer `it` values come back numerically equal (oracle only)
+            x3 = x2.copy()
+            x3["it"] = np.arange(1, n + 1) * 7
+            y, err = call(lp.dict_to_live_points, lp.live_points_to_dict(x3), non_sampling_parameters=False)
+            if err or list(y.dtype.names) != fields or not np.all(y["it"] == x3["it"]):
+                rec.fail("dict_to_live_points:default-args-roundtrip", "`it` values changed on the way back")
     # unstructured view (function and Model method)
     kk = rng.randint(1, k)
     for sn, s in (("names", list(names)), ("prefix", list(names[:kk]))):
